@@ -8,6 +8,7 @@ import CoapVerif.Lemmas.BlockRtag
 import CoapVerif.Lemmas.BlockNet
 import CoapVerif.Lemmas.BlockNetOnce
 import CoapVerif.Lemmas.BlockTok
+import CoapVerif.Lemmas.BlockAdl
 /-
 C09 — block-wise transfer: the sender's body arrives intact, once, or the transfer fails explicitly.
 
@@ -1270,5 +1271,81 @@ example : (addDataLarge 1152 4 2 11 none 0 5000 1).isSome = true := by decide
 example : ([0, 2, 4, 6, 1, 3].foldl (insertStep 4) ([], [])).1 = [(0, 4)] := by decide
 example : (updateReceived 4 [(0, 0), (2, 2), (4, 4)] 6).1 = false := by decide
 example : nBlocks 40 0 = 3 ∧ slices [1, 2, 3] 0 = [[1, 2, 3]] := by decide
+
+/-! ## the release callback when a call supersedes a transfer still in progress (round S09)
+
+M = `adlCall` / `adlEvStep` (Model/BlockAdl.lean): the search in front of coap_add_data_large_internal ("See if this token
+is already in use for large bodies" / coap_find_lg_xmit_response), every exit behind it incl. the allocation failure
+points, the `fail:` label with the LOCAL VARIABLE `lg_xmit`, the caller's own refusal; T2 op `adlx`. -/
+
+/-- The release callback, part 3 — ONE call of coap_add_data_large_request / _response in EVERY session state, for every
+key, body and exit (success, refusal in front, "does not fit (2)" / "(3)", setup_block_b / coap_add_data failure, any of
+the three allocations failing):
+(1) the session's list afterwards is the old one without the transfer that had the key (untouched if the caller refused
+    in front), with the new lg_xmit at the head exactly when the call linked one;
+(2) the callbacks this call runs are exactly: the superseded transfer's, ONCE, and the new body's, ONCE unless its
+    lg_xmit was linked — for every body `b` the number of invocations grows by exactly these two indicator terms (so
+    no callback runs twice, none of a third body runs, and the new body's is never dropped);
+(3) hence "ran + held" of every body is unchanged and the new body is accounted for exactly once. -/
+theorem adl_supersede_release_once (s : AdlSess) (key body : Nat) (ex : AdlExit) :
+    let s' := adlCall s key body ex
+    s'.xmits = (if ex.isLinked then [{ key := key, body := body }] else []) ++
+        (if ex = .refused then s.xmits else removeKey s.xmits key) ∧
+    (∀ b, ran s' b = ran s b + (if body = b ∧ ex.isLinked = false then 1 else 0) +
+        (if superseded s key ex = some b then 1 else 0)) ∧
+    (∀ b, ran s' b + held s' b = ran s b + held s b + (if body = b then 1 else 0)) :=
+  ⟨(adlCall_spec s key body ex).1, (adlCall_spec s key body ex).2, fun b => adlCall_ledger s key body ex b⟩
+
+/-- The exits are those of `adlRel` / `addDataLarge`: without allocation failure the request path's exit links an
+lg_xmit exactly when `addDataLarge` yields a multi-block transfer, and otherwise accounts for one invocation. -/
+theorem adl_exit_matches_adlRel (maxSize tokLen optBytes lastOpt : Nat) (blk : Option Nat) (maxBlk length rtagLen : Nat) :
+    (adlExitReq maxSize tokLen optBytes lastOpt blk maxBlk length rtagLen 0).rel =
+      adlRel maxSize tokLen optBytes lastOpt blk maxBlk length rtagLen ∧
+    ((adlExitReq maxSize tokLen optBytes lastOpt blk maxBlk length rtagLen 0).isLinked = true ↔
+      ∃ a, addDataLarge maxSize tokLen optBytes lastOpt blk maxBlk length rtagLen = some a ∧ a.lgXmit = true) := by
+  have h := adlExitReq_rel maxSize tokLen optBytes lastOpt blk maxBlk length rtagLen
+  refine ⟨h, ?_⟩
+  rw [← (adlRel_spec maxSize tokLen optBytes lastOpt blk maxBlk length rtagLen).2, ← h]
+  cases adlExitReq maxSize tokLen optBytes lastOpt blk maxBlk length rtagLen 0 <;> simp [AdlExit.isLinked, AdlExit.rel]
+
+/-- The release callback, part 4 — a session's whole life: for EVERY sequence of calls (any keys — re-used or not —,
+any exits), expiries and frees, with the bodies numbered in call order: at every point each body handed over so far has
+either had its callback run exactly once or is held by exactly one linked lg_xmit (never both, never twice), no other
+callback has run, the session never holds two transfers with one key, and once the session is freed every body's
+callback has run EXACTLY once. -/
+theorem adl_run_release_exactly_once (evs : List AdlEv) :
+    let st := adlRun evs
+    (∀ b, ran st.1 b + held st.1 b = if b < st.2 then 1 else 0) ∧
+    (st.1.xmits.map (·.key)).Nodup ∧
+    (let f := adlRun (evs ++ [AdlEv.free])
+     f.1.xmits = [] ∧ f.2 = st.2 ∧ ∀ b, ran f.1 b = if b < st.2 then 1 else 0) := by
+  intro st
+  have hinv : AdlInv st := adlFold_inv evs _ adlInv_init
+  refine ⟨hinv, adlFold_keys evs _ List.nodup_nil, ?_⟩
+  intro f
+  have hf : f = adlEvStep st AdlEv.free := by
+    show (evs ++ [AdlEv.free]).foldl adlEvStep ({}, 0) = _
+    rw [List.foldl_append]; rfl
+  rw [hf]
+  refine ⟨rfl, rfl, ?_⟩
+  intro b
+  show ran (adlReleaseAll st.1) b = _
+  rw [(adlReleaseAll_ledger st.1 b).2]
+  exact hinv b
+
+/-- non-vacuity, and the seeded scenario: a 600-byte PUT with a 5-byte-key token on a 128-byte PDU links an lg_xmit
+(block size 2); a second PUT re-using the token with a 60-byte Uri-Path does not fit ("(2)"): the first body's callback
+has run once, the second body's once, nothing is linked.  Had `fail:` seen the superseded lg_xmit in the local variable
+(`adlFailPath (some 0)`), body 0 would have run twice and body 1 never. -/
+example :
+    adlExitReq 128 8 2 11 none 0 600 1 0 = .linked 2 ∧ adlExitReq 128 8 62 11 none 0 600 1 0 = .failSearch ∧
+    adlRun [.call 5 (.linked 2), .call 5 .failSearch] = ({ xmits := [], rel := [1, 0] }, 2) ∧
+    adlFailPath (some 0) 1 [0] = [0, 0] := by decide
+example : adlExitReq 1152 4 2 11 none 0 6000 1 1 = .failSearch ∧ adlExitReq 1152 4 2 11 none 0 6000 1 2 = .failNew ∧
+    adlExitReq 1152 4 2 11 none 0 6000 1 3 = .failNew ∧ adlExitRsp 60 4 2 12 6 0 5000 1 0 = .failSearch ∧
+    adlExitRsp 20 4 2 12 6 0 5000 1 0 = .refused ∧ adlExitRsp 1152 4 2 12 6 0 5000 1 0 = .linked 6 := by decide
+example : adlRun [.call 1 (.linked 6), .call 2 (.linked 6), .call 1 .released, .expire, .call 3 .failNew, .free] =
+    ({ xmits := [], rel := [3, 1, 2, 0] }, 4) := by decide
+
 
 end Coap.C09
